@@ -143,6 +143,9 @@ func checkBuilder(p *Program, r *Report, rule string, fn *ssa.Function, wantN in
 	}
 	k := formAtom(bf.K)
 	ok := bf.N == wantN && bf.First.Equal(formInt(0)) && bf.Limit.Equal(formInt(bf.N)) && bf.Index.Equal(k)
+	if !ok && bf.N == wantN && bf.First.Equal(formInt(bf.N-1)) && bf.Limit.Equal(formInt(-1)) && bf.Index.Equal(k) {
+		ok = true // the same indices, counted down from N−1 to 0 (the summariser only accepts unit steps here)
+	}
 	r.Check(ok, rule, key+" range", p.FnPos(fn), fmt.Sprintf("fills every index 0..%d of the [%d] array, entry i at index i", bf.N-1, bf.N),
 		fmt.Sprintf("array length %d (expected %d), loop covers [%s, %s), stores at index %s", bf.N, wantN, bf.First.Key(), bf.Limit.Key(), bf.Index.Key()))
 	want := k.Div(formInt(bf.N - 1))
